@@ -193,7 +193,7 @@ def _multi_one(ctx, rng, n, reps, ps, ss, scl):
                 ncl.append('n>=800')
             stoks = lst([cs(s) for s in ss])
             ptoks = lst([p.tok() for p in ps])
-            if n <= 200:
+            if n <= 2200:
                 ctx.add('ed.msm', stoks, ptoks, expect=e, cls=['ep:msm'] + ncl)
             ctx.add('ed.vmsm', stoks, ptoks, expect=e, cls=['ep:vmsm'] + ncl)
             ctx.add('ed.omsm', stoks, ptoks, expect=e, cls=['ep:omsm'] + ncl)
@@ -380,7 +380,8 @@ def run(prop, tier, seed, t0):
     # the documented switches (190, 500, 800) from both sides, plus sizes drawn from the seed in every range
     import random as _r
     rs = _r.Random(seed * 104729 + 5)
-    drawn = [(rs.randrange(9, 64), rs.randrange(65, 189)), (rs.randrange(192, 499),), (rs.randrange(502, 799),), (rs.randrange(802, 1100),)]
+    drawn = [(rs.randrange(9, 64), rs.randrange(65, 189)), (rs.randrange(192, 499),), (rs.randrange(502, 799),), (rs.randrange(802, 1023),),
+             (rs.randrange(1025, 1500),), (rs.randrange(2049, 2200),)]
     if tier == 'quick':
         tasks += plan.spread_tasks('vlib.props.c04', 'task', prop, seed, 96, cb, ntasks=8)
         tasks.append(('vlib.props.c04', 'task_digits', prop, seed * 1000 + 50, 0, cb, {}))
